@@ -550,6 +550,7 @@ func superviseWorker(p *props.Prop, tier string, seed uint64, k, w int, b props.
 	from := k
 	var acc *WorkerOut
 	var crashes []ViolOut
+	unrepro := 0
 	deadline := time.Now().Add(b.Wall)
 	for attempt := 0; attempt < 4; attempt++ {
 		out := filepath.Join(tmp, fmt.Sprintf("w%d-%d.json", k, attempt))
@@ -603,8 +604,23 @@ func superviseWorker(p *props.Prop, tier string, seed uint64, k, w int, b props.
 		c2.Stdout = &se2
 		err2 := c2.Run()
 		if err2 == nil || !(strings.Contains(se2.String(), "fatal error:") || strings.Contains(se2.String(), "runtime: goroutine stack exceeds")) {
-			trouble.Store(k, fmt.Sprintf("fatal error in run %d did not reproduce alone: %s", idx, tail(se, 1500)))
-			return acc, crashes
+			// A fatal abort that does not happen again when the same run is executed alone in a fresh process is not a
+			// property of that run (one seed = one execution): it is trouble in the machinery or the machine. Said loudly,
+			// kept on disk in full, and the stripe goes on behind that run - once; a second one ends the check with exit 2.
+			os.MkdirAll(filepath.Join(verifDir(), "harness", ".trouble"), 0o755)
+			tf := filepath.Join(verifDir(), "harness", ".trouble", fmt.Sprintf("%s-worker%d-run%d.txt", p.ID, k, idx))
+			os.WriteFile(tf, []byte(se), 0o644)
+			unrepro++
+			if acc != nil && acc.Probes != nil {
+				acc.Probes["HARNESS-NOTE: fatal abort of a worker that did not reproduce alone (stripe continued)"]++
+			}
+			fmt.Fprintf(os.Stderr, "verifsim: NOTE worker %d: fatal error in run %d (%s) did not reproduce alone; full output kept in %s; the stripe continues behind it\n", k, idx, fatalKind(se), tf)
+			if unrepro > 1 {
+				trouble.Store(k, fmt.Sprintf("a second fatal error (run %d) did not reproduce alone: %s", idx, tail(se, 1500)))
+				return acc, crashes
+			}
+			from = idx + w
+			continue
 		}
 		what := "the Go runtime aborted the process: "
 		cls := "fatal:" + fatalKind(se2.String())
